@@ -1,5 +1,7 @@
 import EgVerif.Proofs.HotUpdate
+import EgVerif.Proofs.HotUpdateIR
 import EgVerif.Gen.FactsC11
+import EgVerif.Gen.FactsC11IR
 /-!
 # C11 — hot update: one consistent generation per request; none fails on update
 
@@ -341,5 +343,170 @@ theorem update_structure_facts :
     FactsC11.rateLimiterWritesPrev = [] ∧ FactsC11.pipelineClosesPrevAfterReload = true ∧
       (∀ k ∈ FactsC11.tcOpsLockFirst, k.2 = true) ∧ FactsC11.tcOpsLockFirst.length = 4 ∧
       FactsC11.tcGetHandlerLoads = 1 := by decide
+
+/-! ## Extension `auth11` — every registered kind is classified; `mux.reload` / `runtime.reload`
+tied by translation -/
+
+open EgVerif.Gen in
+/-- **Coverage obligation.** Every filter kind registered with `filters.Register` anywhere under
+`pkg/filters` (list regenerated from the source on every run) is either driven by the `filters`
+harness or listed, with the reason, as not instantiable in-process offline. A kind added to the
+source breaks this obligation until it is classified. -/
+theorem filter_kinds_classified :
+    FactsC11.extractionFailed = false ∧
+      ∀ k ∈ FactsC11.filterKinds,
+        k ∈ exercisedFilterKinds ∨ k ∈ notInstantiableFilterKinds.map (·.1) := by decide
+
+open EgVerif.Gen in
+/-- The classification is not stale: every classified kind is a registered kind, no kind is in both
+lists, and a kind excluded from the default build by a `//go:build` constraint is not claimed as
+exercised. -/
+theorem filter_kind_classification_exact :
+    (∀ k ∈ exercisedFilterKinds ++ notInstantiableFilterKinds.map (·.1), k ∈ FactsC11.filterKinds) ∧
+      (∀ k ∈ exercisedFilterKinds, k ∉ notInstantiableFilterKinds.map (·.1)) ∧
+      (∀ k ∈ FactsC11.filterKindBuildTag, k.1 ∉ exercisedFilterKinds) := by decide
+
+open EgVerif.Gen in
+/-- Per *kind* (not per package): every kind whose `Inherit` mentions the previous generation has an
+explicit model (`rlInherit`), and every explicitly modelled kind is exercised by the harness. All
+other kinds are `Independent` on the inherit side (`old_generation_usable_of_independent`). -/
+theorem inherit_touching_kinds_are_modelled_per_kind :
+    (∀ k ∈ FactsC11.filterKindTouchesPrev, k.2 = true → k.1 ∈ explicitlyModelledKinds) ∧
+      FactsC11.filterKindTouchesPrev.map (·.1) = FactsC11.filterKinds ∧
+      (∀ k ∈ explicitlyModelledKinds, k ∈ exercisedFilterKinds) := by decide
+
+open EgVerif.Gen in
+/-- Every type registered with `supervisor.Register` under `pkg/object` is classified: driven by a
+C11 harness, or listed with the reason why not. -/
+theorem object_kinds_classified :
+    (∀ k ∈ FactsC11.objectKinds,
+        k ∈ exercisedObjectKinds.map (·.1) ∨ k ∈ notExercisedObjectKinds.map (·.1)) ∧
+      (∀ k ∈ exercisedObjectKinds.map (·.1) ++ notExercisedObjectKinds.map (·.1), k ∈ FactsC11.objectKinds) := by
+  decide
+
+/-- Non-vacuity: the regenerated lists are not empty and contain the kinds the property names. -/
+example : "RateLimiter" ∈ EgVerif.Gen.FactsC11.filterKinds ∧ "KafkaMQTT" ∈ EgVerif.Gen.FactsC11.filterKinds ∧
+    EgVerif.Gen.FactsC11.filterKinds.length ≥ 21 ∧ "HTTPServer" ∈ EgVerif.Gen.FactsC11.objectKinds := by decide
+
+open EgVerif.Gen in
+/-- **`mux.reload` regenerated from the source** (`pkg/object/httpserver/mux.go`): the definition
+translated from the current body equals the model `muxReload` for every old instance, spec, mapper
+and every behaviour of `tracing.New` / `lru.NewARC`. -/
+theorem muxReload_regenerated_from_source :
+    FactsC11IR.extractionFailed = false ∧
+      ∀ (newTracer : Option Nat → Option Nat × Bool) (newARC : Nat → Option Nat × Bool) (m : MuxShared)
+        (old : MuxInst) (superSpec : Nat) (spec : SrvSpec) (muxMapper : Nat),
+        FactsC11IR.muxReloadIR newTracer newARC m old superSpec spec muxMapper =
+          muxReload newTracer newARC m old superSpec spec muxMapper :=
+  ⟨by decide, HotUpdate.muxReload_regenerated_from_source⟩
+
+open EgVerif.Gen in
+/-- **`runtime.reload` regenerated from the source** (`pkg/object/httpserver/runtime.go`). -/
+theorem runtimeReload_regenerated_from_source :
+    FactsC11IR.extractionFailed = false ∧
+      ∀ (r : Runtime) (nextSuperSpec : Nat) (nextSpec : Option SrvSpec) (muxMapper : Nat),
+        FactsC11IR.runtimeReloadIR r nextSuperSpec nextSpec muxMapper =
+          runtimeReload r nextSuperSpec nextSpec muxMapper :=
+  ⟨by decide, HotUpdate.runtimeReload_regenerated_from_source⟩
+
+/-- `mux.reload` is *build, then one Store*: its only effect on shared state is a single
+`m.inst.Store` of an instance that carries the new spec, the new mapper, one rule object per spec
+rule, and a cache that is either absent or fresh from `lru.NewARC` — never the old instance's. -/
+theorem reload_is_build_then_single_store (newTracer : Option Nat → Option Nat × Bool)
+    (newARC : Nat → Option Nat × Bool) (m : MuxShared) (old : MuxInst) (superSpec : Nat) (spec : SrvSpec)
+    (muxMapper : Nat) :
+    ∃ inst, muxReload newTracer newARC m old superSpec spec muxMapper = [MuxEffect.store inst] ∧
+      inst.spec = spec ∧ inst.muxMapper = muxMapper ∧ inst.superSpec = superSpec ∧
+      inst.rules.length = spec.rules.length ∧
+      (inst.cache = none ∨ inst.cache = (newARC spec.cacheSize).1) := by
+  refine ⟨buildInstance newTracer newARC m old superSpec spec muxMapper, rfl, rfl, rfl, rfl, ?_, ?_⟩
+  · simp [buildInstance]
+  · by_cases h : spec.cacheSize > 0 <;> simp [buildInstance, h]
+
+/-- **Nothing of the old instance is reused except the tracer**: two old instances with the same
+tracer and tracing spec — whatever their rules, caches, filters, mappers — lead to the same new
+instance. (The modelling assumption behind Part 1's `build u g`, where `g` does not depend on the
+state, now derived from the translated body.) -/
+theorem reload_uses_old_only_for_tracer (newTracer : Option Nat → Option Nat × Bool)
+    (newARC : Nat → Option Nat × Bool) (m : MuxShared) (old old' : MuxInst) (superSpec : Nat) (spec : SrvSpec)
+    (muxMapper : Nat) (ht : old.tracer = old'.tracer) (hs : old.spec.tracing = old'.spec.tracing) :
+    muxReload newTracer newARC m old superSpec spec muxMapper =
+      muxReload newTracer newARC m old' superSpec spec muxMapper := by
+  simp [muxReload, buildInstance, reloadTracer, ht, hs]
+
+/-- The generation a request may read out of an instance. -/
+def instGen (i : MuxInst) : Gen (List (Option BuiltRule) × Option Nat × List Nat × Option Nat) SrvSpec Nat :=
+  ⟨(i.rules, i.ipFilter, i.ipFilterChan, i.cache), i.spec, i.muxMapper⟩
+
+/-- `mux.reload`'s effect list, read as micro-steps of Part 1: each `Store inst` is `build u g; store u`. -/
+def effectSteps (u : Nat) : List MuxEffect →
+    List (Step (List (Option BuiltRule) × Option Nat × List Nat × Option Nat) SrvSpec Nat)
+  | [] => []
+  | .store i :: rest => .build u (instGen i) :: .store u :: effectSteps u rest
+
+/-- **Refinement to Part 1**: executing the (translated) `mux.reload` in any state publishes exactly
+one new generation — the one built from the new spec and mapper — on top of the history, and
+touches no request's state; so the schedule theorems (`request_sees_one_generation`,
+`after_store_new` …) apply to the real `reload`. -/
+theorem reload_refines_build_store (newTracer : Option Nat → Option Nat × Bool)
+    (newARC : Nat → Option Nat × Bool) (m : MuxShared) (old : MuxInst) (superSpec : Nat) (spec : SrvSpec)
+    (muxMapper : Nat) (u : Nat)
+    (s : St (List (Option BuiltRule) × Option Nat × List Nat × Option Nat) SrvSpec Nat) :
+    let g := instGen (buildInstance newTracer newARC m old superSpec spec muxMapper)
+    let s' := run s (effectSteps u (muxReload newTracer newARC m old superSpec spec muxMapper))
+    s'.cur = g ∧ s'.hist = g :: s.hist ∧ s'.reqs = s.reqs ∧ g.options = spec ∧ g.mapper = muxMapper := by
+  simp [muxReload, effectSteps, run, step, instGen, buildInstance]
+
+open EgVerif.Gen in
+/-- The `Spec` fields `needRestartServer` blanks before comparing are exactly the model's
+`hotFields` (so `needRestart` = "differs outside the hot fields"). -/
+theorem needRestart_ignores_hot_fields : FactsC11IR.needRestartIgnoredFields = hotFields := by decide
+
+/-- **An update confined to rules / IP filters / cache size / X-Forwarded-For / tracing /
+maxConnections never closes the listener**: `runtime.reload` then performs the mux reload (one
+atomic Store, see above), at most a `SetMaxConnection`, and nothing else — no request fails because
+of a listener restart. -/
+theorem hot_update_never_restarts (r : Runtime) (cur next : SrvSpec) (ss mm : Nat)
+    (hr : r.spec = some cur) (hk : cur.restartKey = next.restartKey) :
+    runtimeReloadDecision r.spec (some next) = ServerAction.nothing ∧
+      RtEffect.closeServer ∉ (runtimeReload r ss (some next) mm).2 ∧
+      RtEffect.startServer ∉ (runtimeReload r ss (some next) mm).2 ∧
+      (runtimeReload r ss (some next) mm).1.spec = some next := by
+  cases r.hasLimitListener <;>
+    simp [runtimeReload, runtimeReloadDecision, needRestart, hr, hk, ServerAction.effects]
+
+/-- Every `runtime.reload` reloads the mux first and exactly once, whatever it then decides about the
+listener; the listener is restarted (close before start) only if the specs differ outside the hot
+fields, started only if there was no spec before. -/
+theorem runtime_reload_shape (r : Runtime) (ss mm : Nat) (next : Option SrvSpec) :
+    (runtimeReload r ss next mm).2.head? = some (RtEffect.muxReload ss mm) ∧
+      ((runtimeReload r ss next mm).2.filter (fun e => e == RtEffect.muxReload ss mm)).length = 1 ∧
+      (runtimeReloadDecision r.spec next = ServerAction.restart ↔
+        ∃ c n, r.spec = some c ∧ next = some n ∧ c.restartKey ≠ n.restartKey) := by
+  obtain ⟨s0, cur, hl⟩ := r
+  refine ⟨rfl, ?_, ?_⟩
+  · cases cur <;> cases next <;> cases hl <;>
+      simp [runtimeReload, runtimeReloadDecision, ServerAction.effects] <;> split <;> simp
+  · cases cur <;> cases next <;> simp [runtimeReloadDecision, needRestart]
+
+/-- Non-vacuity: a rules-only update (same `restartKey`) and a port change (different one). -/
+example :
+    let cur : SrvSpec := ⟨none, none, 0, false, 10, [⟨none, [1], 7⟩], 80⟩
+    let nxt : SrvSpec := ⟨none, some 3, 16, true, 20, [⟨some 4, [1, 2], 7⟩, ⟨none, [], 8⟩], 80⟩
+    let r : Runtime := ⟨1, some cur, true⟩
+    (runtimeReload r 2 (some nxt) 5).2 = [.muxReload 2 5, .setMaxConnection 20] ∧
+      (runtimeReload r 2 (some { nxt with restartKey := 81 }) 5).2 =
+        [.muxReload 2 5, .setMaxConnection 20, .closeServer, .startServer] ∧
+      (runtimeReload ⟨0, none, false⟩ 2 (some nxt) 5).2 = [.muxReload 2 5, .startServer] := by decide
+
+/-- Non-vacuity for `mux.reload`: two rules with paths and IP filters, cache on, tracing unchanged;
+the old instance's cache and rules do not show up in the new one. -/
+example :
+    let spec : SrvSpec := ⟨none, some 3, 16, true, 20, [⟨some 4, [1, 2], 7⟩, ⟨none, [], 8⟩], 80⟩
+    let old : MuxInst := ⟨0, { spec with cacheSize := 4, rules := [] }, 9, 1, 2, none, [], [], some 5, some 4⟩
+    muxReload (fun _ => (some 6, false)) (fun n => (some n, false)) ⟨1, 2⟩ old 11 spec 12 =
+      [.store ⟨11, spec, 12, 1, 2, some 3, [3],
+        [some ⟨[3], ⟨some 4, [1, 2], 7⟩, [some ⟨[3, 4], 1⟩, some ⟨[3, 4], 2⟩]⟩, some ⟨[3], ⟨none, [], 8⟩, []⟩],
+        some 5, some 16⟩] := by decide
 
 end EgVerif.C11
